@@ -384,7 +384,12 @@ impl Storm {
                 self.move_price(w, b);
                 return;
             }
-            89..=94 => self.try_liquidate(w, m).await,
+            89..=93 => self.try_liquidate(w, m).await,
+            94 => {
+                // anybody may refresh an account's health cache: the program's own three valuations
+                let i = ix::pulse_health(w.accts[a].key, w.risk_metas(a, None, None));
+                w.exec(m, &[i], &[]).await
+            }
             95..=96 => self.try_bankruptcy(w, m, a).await,
             97 => self.account_lifecycle(w, m, a).await,
             _ => self.flashloan(w, m, a, b).await,
